@@ -6,8 +6,8 @@
 // (the io/fs contract checker) on trees whose symlinks all resolve; (b) a direct comparison of
 // ReadDir / Stat / ReadFile / WalkDir / Open results with the generated tree, for the root view and
 // for working-directory views (New(..., wd) and ChangeDir); (c) per-symlink expectations: resolves
-// to the right file/directory, or fails with an error. Everything runs in child processes that log
-// the case id before running it, because a symlink loop is a process-fatal stack overflow today.
+// to the right file/directory, or fails with an error. Symlink loops are opened only in child
+// processes that log the case id before running it: a loop is a process-fatal stack overflow today.
 package c29
 
 import (
@@ -27,6 +27,7 @@ import (
 	"sort"
 	"strconv"
 	"strings"
+	"sync/atomic"
 	"testing"
 	"testing/fstest"
 	"time"
@@ -252,7 +253,7 @@ func genTree(rng *rand.Rand, hostile bool) treeCase {
 			l.N.Target = "n9"
 		}
 	}
-	if hostile && len(links) > 0 {
+	if hostile && len(links) > 0 && rng.Intn(5) < 3 {
 		// Plant one loop of length 1-3 over existing links (self link; a<->b; a->b->c->a).
 		k := 1 + rng.Intn(3)
 		if k > len(links) {
@@ -370,26 +371,19 @@ func abstract(msg string) string {
 		return m[1] + "(invalid path: " + badClass(m[2]) + ") succeeded"
 	}
 	if strings.Contains(first, "Stat(...) =") || strings.Contains(first, "mismatch") {
-		// keep the kind letters of both sides: "fs.Stat(...) = L want -"
+		// keep what kind of entry disagrees: the type letters of the Mode=/type fields of both sides
 		var kinds []string
-		for _, l := range lines {
-			l = strings.TrimSpace(l)
-			if i := strings.Index(l, "= "); i >= 0 {
-				l = l[i+2:]
-			}
-			l = strings.TrimPrefix(l, "want ")
-			f := strings.Fields(l)
-			for _, w := range f {
-				if len(w) >= 10 && strings.ContainsAny(w[:1], "-dLrwx") && strings.Trim(w, "-dLrwxDalTLpSugtc?") == "" {
-					kinds = append(kinds, w[:1])
-					break
-				}
-			}
+		for _, m := range regexp.MustCompile(`(?:Mode=|Type=|type=)(\S)`).FindAllStringSubmatch(msg, -1) {
+			kinds = append(kinds, m[1])
 		}
-		first = strings.TrimSpace(first[:strings.IndexAny(first+"=", "=")]) + " kinds " + strings.Join(kinds, "/")
-		first = nameRe.ReplaceAllString(first, "<p>")
-		return first
+		first = strings.TrimSpace(first[:strings.IndexAny(first+"=", "=")])
+		first = strings.TrimSuffix(strings.TrimSpace(nameRe.ReplaceAllString(first, "<p>")), ":")
+		if strings.Contains(first, "Stat(...)") && len(kinds) == 2 && kinds[0] == "L" && kinds[1] != "L" {
+			return "Stat(symlink) describes the link, Open+Stat the target"
+		}
+		return first + " disagrees, entry kinds " + strings.Join(kinds, " vs ")
 	}
+	first = strings.ReplaceAll(first, "%!w(<nil>)", "nil")
 	first = nameRe.ReplaceAllString(first, "<p>")
 	first = numRe.ReplaceAllString(first, "N")
 	return first
@@ -416,7 +410,8 @@ func badClass(b string) string {
 func isNotExist(err error) bool { return err != nil && errors.Is(err, iofs.ErrNotExist) }
 
 // checkCase runs every oracle on one tree.
-func checkCase(tc treeCase) (fs []finding, obs map[string]int) {
+// phase "main": everything except opening symlink loops; phase "loops": only that (may not return today).
+func checkCase(tc treeCase, phase string) (fs []finding, obs map[string]int) {
 	obs = map[string]int{}
 	add := func(key, what string) {
 		for _, f := range fs {
@@ -446,6 +441,25 @@ func checkCase(tc treeCase) (fs []finding, obs map[string]int) {
 		}
 	}
 	// fstest also walks outside the view? No: it only walks the view. But links in the whole tree matter only when reached.
+
+	if phase == "loops" {
+		for _, e := range all {
+			if e.N.Kind == tLink && linkRes[e.Path] == rLoop {
+				obs["symlink_loops_opened"]++
+				if f, err := fsys.Open(e.Path); err == nil {
+					f.Close()
+					add("symlink-loop/opens", fmt.Sprintf("Open(%q) (-> %q) succeeded on a symlink loop", e.Path, e.N.Target))
+				}
+				if _, err := iofs.ReadFile(fsys, e.Path); err == nil {
+					add("symlink-loop/opens", fmt.Sprintf("fs.ReadFile(%q) succeeded on a symlink loop", e.Path))
+				}
+				if _, err := iofs.ReadDir(fsys, e.Path); err == nil {
+					add("symlink-loop/opens", fmt.Sprintf("fs.ReadDir(%q) succeeded on a symlink loop", e.Path))
+				}
+			}
+		}
+		return fs, obs
+	}
 
 	// (b) direct comparison, per directory.
 	dirs := []entry{{".", view}}
@@ -534,11 +548,11 @@ func checkCase(tc treeCase) (fs []finding, obs map[string]int) {
 				}
 				sort.Strings(paged)
 				if len(paged) > len(wn) {
-					add("readdir-paged/returns-entries-again", fmt.Sprintf("Open(%q) then ReadDir(1) repeatedly returned %v for a directory holding %v", d.Path, paged, wn))
+					add("readdir-paged/position-or-EOF-wrong", fmt.Sprintf("Open(%q) then ReadDir(1) repeatedly returned %v for a directory holding %v", d.Path, paged, wn))
 				} else if strings.Join(paged, " ") != strings.Join(wn, " ") {
 					add("readdir-paged/entries-differ-from-tree", fmt.Sprintf("Open(%q) then ReadDir(1) repeatedly returned %v for a directory holding %v", d.Path, paged, wn))
 				} else if !eof {
-					add("readdir-paged/no-EOF", fmt.Sprintf("Open(%q): ReadDir(1) never returned io.EOF", d.Path))
+					add("readdir-paged/position-or-EOF-wrong", fmt.Sprintf("Open(%q): ReadDir(1) never returned io.EOF", d.Path))
 				}
 			} else {
 				add("open-dir/not-a-ReadDirFile", fmt.Sprintf("Open(%q) returned %T", d.Path, f))
@@ -690,7 +704,8 @@ func checkCase(tc treeCase) (fs []finding, obs map[string]int) {
 		res := linkRes[e.Path]
 		_, target := resolve(tc.Root, full(e.Path))
 		if res == rLoop {
-			continue // last, see below
+			obs["symlink_loops_left_to_the_child_phase"]++
+			continue
 		}
 		obs["symlinks_opened"]++
 		f, err := fsys.Open(e.Path)
@@ -737,19 +752,6 @@ func checkCase(tc treeCase) (fs []finding, obs map[string]int) {
 			f.Close()
 		}
 	}
-	// Loops last: today this does not return.
-	for _, e := range all {
-		if e.N.Kind == tLink && linkRes[e.Path] == rLoop {
-			obs["symlink_loops_opened"]++
-			if f, err := fsys.Open(e.Path); err == nil {
-				f.Close()
-				add("symlink-loop/opens", fmt.Sprintf("Open(%q) (-> %q) succeeded on a symlink loop", e.Path, e.N.Target))
-			}
-			if _, err := iofs.ReadFile(fsys, e.Path); err == nil {
-				add("symlink-loop/opens", fmt.Sprintf("fs.ReadFile(%q) succeeded on a symlink loop", e.Path))
-			}
-		}
-	}
 	obs["cas_reads"] += cas.reads
 	return fs, obs
 }
@@ -785,10 +787,24 @@ func splitErrors(err error) []string {
 }
 
 // ---------------------------------------------------------------------------------------------
-// Child protocol: C29_JOBS="stream:index:seed,..." C29_OUT=<file>. START/DONE lines; a START without DONE is a crash.
+// Child protocol for the loop phase: C29_JOBS="index:seed,..." C29_OUT=<file>. START/DONE lines; a
+// START without DONE is a crash.
 
-func caseFor(stream string, seed int64) treeCase {
-	return genTree(rand.New(rand.NewSource(seed)), stream == "hostile")
+func hasLoop(tc treeCase) bool { return loopDesc(tc) != "" }
+
+// loopDesc lists the looping symlinks that are visible in the case's view.
+func loopDesc(tc treeCase) string {
+	var all []entry
+	walkModel(lookup(tc.Root, tc.WD), "", &all)
+	var s []string
+	for _, e := range all {
+		if e.N.Kind == tLink {
+			if x, _ := resolve(tc.Root, path.Join(tc.WD, e.Path)); x == rLoop {
+				s = append(s, e.Path+" -> "+e.N.Target)
+			}
+		}
+	}
+	return strings.Join(s, ", ")
 }
 
 func TestC29Child(t *testing.T) {
@@ -796,7 +812,7 @@ func TestC29Child(t *testing.T) {
 		return
 	}
 	iplib.Quiet()
-	debug.SetMaxStack(16 << 20) // a runaway recursion on a 20-node tree ends quickly instead of eating 1 GB
+	debug.SetMaxStack(4 << 20) // a runaway recursion on a <20-node tree ends quickly instead of eating 1 GB
 	out, err := os.OpenFile(os.Getenv("C29_OUT"), os.O_WRONLY|os.O_CREATE|os.O_APPEND, 0o644)
 	if err != nil {
 		t.Fatal(err)
@@ -804,36 +820,42 @@ func TestC29Child(t *testing.T) {
 	defer out.Close()
 	for _, j := range strings.Split(os.Getenv("C29_JOBS"), ",") {
 		f := strings.Split(j, ":")
-		if len(f) != 3 {
+		if len(f) != 2 {
 			continue
 		}
-		idx, _ := strconv.Atoi(f[1])
-		seed, _ := strconv.ParseInt(f[2], 10, 64)
+		idx, _ := strconv.Atoi(f[0])
+		seed, _ := strconv.ParseInt(f[1], 10, 64)
 		fmt.Fprintf(out, "START %d\n", idx)
-		tc := caseFor(f[0], seed)
-		fs, obs := checkCase(tc)
-		var all []entry
-		walkModel(tc.Root, "", &all)
-		b, _ := json.Marshal(result{Job: idx, Findings: fs, Obs: obs, Hash: lib.Hash(lib.JSON(tc)), Nontriv: len(all) >= 3})
+		tc := genTree(rand.New(rand.NewSource(seed)), true)
+		fs, obs := checkCase(tc, "loops")
+		b, _ := json.Marshal(result{Job: idx, Findings: fs, Obs: obs})
 		fmt.Fprintf(out, "DONE %d %s\n", idx, b)
 	}
 }
 
-const batch = 25
+const (
+	batch       = 20
+	crashBudget = 8 // once this many loop cases have killed their process, further ones add nothing
+)
 
-func runBatch(r *lib.Run, stream string, b int, total int) {
-	var jobs []int
-	for j := b * batch; j < (b+1)*batch && j < total; j++ {
-		jobs = append(jobs, j)
-	}
-	outFile := filepath.Join(r.Scratch(), fmt.Sprintf("%s.%d.out", stream, b))
-	for attempt := 0; len(jobs) > 0 && attempt <= batch; attempt++ {
+var crashes atomic.Int64
+
+func hostileCase(r *lib.Run, i int) treeCase { return genTree(r.Rand("hostile", i), true) }
+
+// runLoopBatch opens the symlink loops of the given hostile cases in child processes.
+func runLoopBatch(r *lib.Run, b int, jobs []int) {
+	outFile := filepath.Join(r.Scratch(), fmt.Sprintf("loops.%d.out", b))
+	for len(jobs) > 0 {
+		if crashes.Load() >= crashBudget {
+			r.Obs("loop_cases_not_run(crash_budget_reached)", int64(len(jobs)))
+			return
+		}
 		var spec []string
 		for _, j := range jobs {
-			spec = append(spec, fmt.Sprintf("%s:%d:%d", stream, j, r.CaseSeed(stream+"-case", j)))
+			spec = append(spec, fmt.Sprintf("%d:%d", j, r.CaseSeed("hostile", j)))
 		}
 		os.Remove(outFile)
-		res := lib.Child("TestC29Child", []string{"C29_JOBS=" + strings.Join(spec, ","), "C29_OUT=" + outFile}, 300*time.Second)
+		res := lib.Child("TestC29Child", []string{"C29_JOBS=" + strings.Join(spec, ","), "C29_OUT=" + outFile}, 600*time.Second)
 		r.Obs("child_processes", 1)
 		data, _ := os.ReadFile(outFile)
 		started, done := -1, map[int]bool{}
@@ -848,17 +870,12 @@ func runBatch(r *lib.Run, stream string, b int, total int) {
 					continue
 				}
 				done[cr.Job] = true
-				r.Case(stream+"/"+cr.Hash, cr.Nontriv)
-				r.Obs("trees_checked", 1)
+				r.Obs("loop_cases_completed", 1)
 				for k, v := range cr.Obs {
 					r.Obs(k, int64(v))
 				}
 				for _, fd := range cr.Findings {
-					tc := caseFor(stream, r.CaseSeed(stream+"-case", cr.Job))
-					r.Violation(fd.Key, fd.What, map[string]any{"case": tc, "stream": stream, "job": cr.Job}, b)
-				}
-				if r.WantSample() && cr.Nontriv {
-					r.Sample(map[string]any{"stream": stream, "tree": caseFor(stream, r.CaseSeed(stream+"-case", cr.Job))})
+					r.Violation(fd.Key, fd.What, map[string]any{"case": hostileCase(r, cr.Job), "hostile_case": cr.Job}, b)
 				}
 			}
 		}
@@ -868,60 +885,33 @@ func runBatch(r *lib.Run, stream string, b int, total int) {
 				rest = append(rest, j)
 			}
 		}
-		crashed := started >= 0 && !done[started]
-		if crashed {
-			tc := caseFor(stream, r.CaseSeed(stream+"-case", started))
-			r.Case(stream+"/"+lib.Hash(lib.JSON(tc)), true)
-			r.Obs("trees_checked", 1)
-			r.Obs("trees_that_killed_the_process", 1)
-			hasLoop := false
-			var all []entry
-			walkModel(tc.Root, "", &all)
-			for _, e := range all {
-				if e.N.Kind == tLink {
-					if x, _ := resolve(tc.Root, e.Path); x == rLoop {
-						hasLoop = true
-					}
-				}
-			}
-			wit := map[string]any{"case": tc, "stream": stream, "job": started, "stderr_head": head(res.Stderr, 3000), "exit": res.Exit, "signal": res.Signal}
+		if started >= 0 && !done[started] {
+			tc := hostileCase(r, started)
+			r.Obs("loop_cases_that_killed_the_process", 1)
+			r.Obs("symlink_loops_opened", 1)
+			wit := map[string]any{"case": tc, "hostile_case": started, "loops": loopDesc(tc), "stderr_head": head(res.Stderr, 3000), "exit": res.Exit, "signal": res.Signal}
 			inFS := strings.Contains(res.Stderr, "please/src/remote/fs.")
 			switch {
 			case res.TimedOut && inFS:
-				r.Violation("symlink-loop/hang", "opening a path did not return (watchdog fired; the goroutine dump shows the process inside remote/fs)", wit, b)
+				crashes.Add(1)
+				r.Violation("symlink-loop/hang", "opening a symlink loop did not return (watchdog fired; the goroutine dump shows the process inside remote/fs): "+loopDesc(tc), wit, b)
 			case res.TimedOut:
-				r.Inconclusive(fmt.Sprintf("%s job %d: child watchdog fired outside remote/fs", stream, started))
-			case strings.Contains(res.Stderr, "stack overflow") || strings.Contains(res.Stderr, "stack exceeds") || strings.Contains(res.Stderr, "goroutine stack exceeds"):
-				key := "process-crash/stack-overflow-without-symlink-loop"
-				if hasLoop {
-					key = "symlink-loop/crash"
-				}
-				r.Violation(key, "the process died with a fatal stack overflow (unbounded recursion in CASFileSystem.open) while opening a symlink loop: "+loopDesc(tc), wit, b)
+				r.Inconclusive(fmt.Sprintf("loops: hostile case %d: child watchdog fired outside remote/fs", started))
+			case strings.Contains(res.Stderr, "stack overflow") || strings.Contains(res.Stderr, "stack exceeds"):
+				crashes.Add(1)
+				r.Violation("symlink-loop/crash", "the process died with a fatal stack overflow (unbounded recursion in CASFileSystem.open) while opening a symlink loop: "+loopDesc(tc), wit, b)
 			case inFS:
-				r.Violation("process-crash/"+firstFatal(res.Stderr), "the process died inside remote/fs", wit, b)
+				crashes.Add(1)
+				r.Violation("symlink-loop/process-crash/"+firstFatal(res.Stderr), "the process died inside remote/fs while opening a symlink loop: "+loopDesc(tc), wit, b)
 			default:
-				r.Inconclusive(fmt.Sprintf("%s job %d: child died (exit %d) outside remote/fs: %s", stream, started, res.Exit, head(res.Stderr, 300)))
+				r.Inconclusive(fmt.Sprintf("loops: hostile case %d: child died (exit %d) outside remote/fs: %s", started, res.Exit, head(res.Stderr, 300)))
 			}
-		} else if len(rest) > 0 && started < 0 {
-			r.Inconclusive(fmt.Sprintf("%s batch %d: child produced nothing (exit %d): %s", stream, b, res.Exit, head(res.Stderr, 300)))
+		} else if len(rest) == len(jobs) {
+			r.Inconclusive(fmt.Sprintf("loops batch %d: child produced nothing (exit %d): %s", b, res.Exit, head(res.Stderr, 300)))
 			return
 		}
 		jobs = rest
 	}
-}
-
-func loopDesc(tc treeCase) string {
-	var all []entry
-	walkModel(tc.Root, "", &all)
-	var s []string
-	for _, e := range all {
-		if e.N.Kind == tLink {
-			if x, _ := resolve(tc.Root, e.Path); x == rLoop {
-				s = append(s, e.Path+" -> "+e.N.Target)
-			}
-		}
-	}
-	return strings.Join(s, ", ")
 }
 
 func head(s string, n int) string {
@@ -940,6 +930,27 @@ func firstFatal(s string) string {
 	return "unknown"
 }
 
+// inProcess runs the main phase of one case in this process.
+func inProcess(r *lib.Run, stream string, i int, tc treeCase) {
+	var all []entry
+	walkModel(tc.Root, "", &all)
+	r.Case(stream+"/"+lib.JSON(tc), len(all) >= 3)
+	r.Obs("trees_checked", 1)
+	if tc.WD != "." {
+		r.Obs("views_from_a_subdirectory", 1)
+	}
+	fs, obs := checkCase(tc, "main")
+	for k, v := range obs {
+		r.Obs(k, int64(v))
+	}
+	for _, fd := range fs {
+		r.Violation(fd.Key, fd.What, map[string]any{"case": tc}, i)
+	}
+	if r.WantSample() && len(all) >= 5 && obs["symlink_file"]+obs["symlink_dir"] > 0 {
+		r.Sample(tc)
+	}
+}
+
 func TestC29(t *testing.T) {
 	if lib.IsChild() {
 		return
@@ -952,10 +963,23 @@ func TestC29(t *testing.T) {
 		"the in-memory CAS returns exactly the generated blobs",
 		"testing/fstest.TestFS of the Go toolchain is the io/fs contract; it is applied only to views whose symlinks all resolve inside the tree (it opens every symlink)",
 		"paths that pass through a symlinked directory are not asserted (the statement does not say whether the view resolves them)",
+		"symlink loops are opened in child processes only (START/DONE log); a child that dies with 'stack overflow' in remote/fs frames is the crash the statement forbids",
 	}
-	nTrees := r.Pick(600, 24000)
-	nHostile := r.Pick(150, 6000)
-	r.ForEach("trees", (nTrees+batch-1)/batch, 6, func(b int, _ *rand.Rand) { runBatch(r, "trees", b, nTrees) })
-	r.ForEach("hostile", (nHostile+batch-1)/batch, 6, func(b int, _ *rand.Rand) { runBatch(r, "hostile", b, nHostile) })
-	r.RequireObserved("trees_checked", "fstest_runs", "files_read", "symlinks_opened", "symlink_loops_opened", "absent_paths_probed")
+	nTrees := r.Pick(3000, 150000)
+	nHostile := r.Pick(900, 45000)
+	r.ForEach("trees", nTrees, 6, func(i int, rng *rand.Rand) { inProcess(r, "trees", i, genTree(rng, false)) })
+	r.ForEach("hostile", nHostile, 6, func(i int, rng *rand.Rand) { inProcess(r, "hostile", i, genTree(rng, true)) })
+	// The loop phase: which hostile cases have a loop is a function of the case index alone (replayable).
+	var loopJobs []int
+	for i := 0; i < nHostile; i++ {
+		if hasLoop(hostileCase(r, i)) {
+			loopJobs = append(loopJobs, i)
+		}
+	}
+	r.Obs("hostile_cases_with_a_symlink_loop", int64(len(loopJobs)))
+	nb := (len(loopJobs) + batch - 1) / batch
+	r.ForEach("loops", nb, 4, func(b int, _ *rand.Rand) {
+		runLoopBatch(r, b, loopJobs[b*batch:min((b+1)*batch, len(loopJobs))])
+	})
+	r.RequireObserved("trees_checked", "fstest_runs", "files_read", "symlinks_opened", "symlink_loops_opened", "absent_paths_probed", "symlink_absolute", "symlink_escapes-root", "views_from_a_subdirectory")
 }
